@@ -346,8 +346,8 @@ var allOps = ops()
 // the operations used in depth-3 histories: everything on file 0 that is not tied to its second rule
 var depth3Ops = func() (out []int) {
 	for i, o := range allOps {
-		if strings.Contains(o.name, "f1") || strings.HasSuffix(o.name, " r1") {
-			continue
+		if strings.Contains(o.name, "f1") || strings.HasSuffix(o.name, " r1") || strings.Contains(o.name, "trailing") {
+			continue // trailing comments (seed C03_4) stay in the depth<=2 histories
 		}
 		out = append(out, i)
 	}
@@ -377,6 +377,9 @@ func writeTree(r *gitrepo.Repo, prev, cur tree) {
 func body(c *explore.Chooser) *explore.Case {
 	depth := 1 + c.Free(maxDepth, "depth")
 	variant := c.Free(3, "base")
+	if variant == 2 && depth == 3 {
+		return &explore.Case{Skip: true} // the flow-style tree (seed C03_4) is explored to depth 2
+	}
 	base := baseTree(variant)
 	cur := base.clone()
 	history := []tree{cur.clone()}
